@@ -36,36 +36,49 @@ def richCall2 (ρ : K) (step order numTerms : Nat) (cols : List (List K)) : List
 end alg
 
 section err
-variable {K : Type} [Num K]
+variable {K : Type} [Num K] {C : Type} [Sub C]
 
-def sumSq (l : List K) : K := l.foldl (fun acc x => acc + Num.abs x * Num.abs x) Num.zero
+/-- `np.sum(np.abs(rule) ** 2)`; `nrm` is `np.abs` on the carrier of the weights (real or complex) -/
+def sumSqN (nrm : C → K) (l : List C) : K := l.foldl (fun acc x => acc + nrm x * nrm x) Num.zero
 
 /-- `fact = max(12.7062047361747 * sqrt(cov1), EPS * 10)`; `sqrtCov` is passed in because `sqrt` is
 not a field operation (the Float driver computes it with `Float.sqrt`; the theorems only need
 `0 ≤ sqrtCov`). -/
 def richFact (t95 eps10 sqrtCov : K) : K := pyMax (t95 * sqrtCov) eps10
 
-/-- first branch of `_estimate_error` (`m_old < 2`): `(|new| * EPS + steps) * fact` -/
-def richErrShort (eps fact : K) (new steps : List K) : List K :=
-  List.zipWith (fun n s => (Num.abs n * eps + s) * fact) new steps
+/-- `max_abs(a, b) = np.maximum(np.abs a, np.abs b)` on a normed carrier -/
+def maxNrm (nrm : C → K) (a b : C) : K :=
+  let x := nrm a; let y := nrm b; if x < y then y else x
+
+/-- first branch of `_estimate_error` (`m_old < 2`): `(|new| * EPS + |steps|) * fact`.  The sequence and
+the steps live in a carrier `C` (real or complex numbers), the estimates in the ordered field `K`;
+`nrm = np.abs`. -/
+def richErrShort (nrm : C → K) (eps fact : K) (new steps : List C) : List K :=
+  List.zipWith (fun n s => (nrm n * eps + nrm s) * fact) new steps
 
 /-- `np.diff` -/
-def diffs : List K → List K
+def diffs : List C → List C
   | a :: b :: rest => (b - a) :: diffs (b :: rest)
   | _ => []
 
 /-- the elementwise loop of the last branch of `_estimate_error` -/
-def richErrGo (eps ten fact : K) : List K → List K → List K
+def richErrGo (nrm : C → K) (eps ten fact : K) : List C → List C → List K
   | a :: b :: rest, o :: os =>
-    let err := Num.abs (b - a) * fact
-    let tol := maxAbs b a * eps * fact
-    (err + (if err ≤ tol then tol * ten else Num.abs (a - o) * fact)) :: richErrGo eps ten fact (b :: rest) os
+    let err := nrm (b - a) * fact
+    let tol := maxNrm nrm b a * eps * fact
+    (err + (if err ≤ tol then tol * ten else nrm (a - o) * fact)) :: richErrGo nrm eps ten fact (b :: rest) os
   | _, _ => []
 
 /-- last branch of `_estimate_error`: `new` has `m ≥ 2` entries, the result `m - 1`:
 `err + where(err <= tol, tol*10, |new[:-1] - old[-m+1:]| * fact)` -/
-def richErrMain (eps ten fact : K) (new old : List K) : List K :=
-  richErrGo eps ten fact new (old.drop (old.length - (new.length - 1)))
+def richErrMain (nrm : C → K) (eps ten fact : K) (new old : List C) : List K :=
+  richErrGo nrm eps ten fact new (old.drop (old.length - (new.length - 1)))
 
 end err
+
+section errReal
+variable {K : Type} [Num K]
+/-- `np.sum(np.abs(rule) ** 2)` for real weights -/
+def sumSq (l : List K) : K := sumSqN (Num.abs : K → K) l
+end errReal
 end Ndt
